@@ -18,17 +18,18 @@ Proof.
   induction v as [|x v IH]; intros [|y d] c; cbn [map zip_with M.map2]; try reflexivity; try (rewrite IH; reflexivity).
 Qed.
 
+(* timesteps equal up to the boolean identities left after the case analysis; conditions compared up to conversion *)
+Ltac ts_eq := unfold cond_done, termination_src, transition_src, termination, transition, StepType_LAST, StepType_MID, LAST, MID;
+  cbn [negb orb andb]; rewrite ?orb_true_r, ?orb_false_r;
+  first [reflexivity | match goal with |- (if ?c then _ else _) = (if ?d then _ else _) => change c with d; destruct d; reflexivity end].
 Theorem step_src rnd sparse mc pen dist s a :
   let r := step mc (reward_model rnd sparse pen dist) s a in
   conv (fst r) = fst (M.step_r rnd sparse mc pen dist (conv s) a) /\ snd r = snd (M.step_r rnd sparse mc pen dist (conv s) a).
 Proof.
-  cbv zeta. unfold step, M.step_r, M.valid, M.all_visited, reward_model. cbn [conv M.visited M.demands M.cap]. rewrite Z.geb_leb.
-  set (v := negb (jget false (s_visited_mask s) a) && (jget 0 (s_demands s) a <=? s_capacity s)).
-  assert (E : conv (if v then update_state mc s a else s) = (if v then M.update mc (conv s) a else conv s)) by (destruct v; reflexivity).
-  set (s' := if v then update_state mc s a else s) in *. cbn [fst snd]. rewrite E. split; [reflexivity|].
-  change (s_visited_mask s') with (M.visited (conv s')). rewrite E.
-  unfold cond_done, termination_src, transition_src, termination, transition, StepType_LAST, StepType_MID, LAST, MID.
-  destruct (forallb (fun b : bool => b) (M.visited (if v then M.update mc (conv s) a else conv s)) || negb v); reflexivity.
+  (* by cases on the two atomic tests (already visited? demand within capacity?): spelling of the source irrelevant *)
+  cbv zeta. unfold step, M.step_r, M.valid, M.all_visited, reward_model. cbn [conv M.visited M.demands M.cap]. rewrite ?Z.geb_leb.
+  destruct (jget false (s_visited_mask s) a) eqn:Ev, (jget 0 (s_demands s) a <=? s_capacity s) eqn:Ed; cbn [negb andb fst snd];
+    (split; [reflexivity|]); ts_eq.
 Qed.
 
 Require Import JV.Proofs.CVRP.
